@@ -703,11 +703,11 @@ fn parse_json_filter(input: &[u8], output: &mut [u8]) -> Result<(usize, usize), 
     let mut start_ids: Option<usize> = None;
     let mut start_authors: Option<usize> = None;
     let mut start_kinds: Option<usize> = None;
-    // Allowing up to 32 tag filter fields (plenty!)
+    // Allowing up to 52 tag filter fields (one per letter A-Z, a-z)
     // (we are not differentiating letters yet, just collecting offsets)
     // (we make the array to avoid allocation)
     let mut num_tag_fields = 0;
-    let mut start_tags: [usize; 32] = [usize::MAX; 32];
+    let mut start_tags: [usize; 52] = [usize::MAX; 52];
 
     eat_whitespace(input, &mut inpos);
     verify_char(input, b'{', &mut inpos)?;
@@ -828,6 +828,10 @@ fn parse_json_filter(input: &[u8], output: &mut [u8]) -> Result<(usize, usize), 
             && input[inpos + 2] == b'"'
         {
             inpos += 1; // pass the hash
+
+            if num_tag_fields >= start_tags.len() {
+                return Err(InnerError::JsonBadFilter("Too many tag fields", inpos).into());
+            }
 
             // Mark this position (on the letter itself)
             start_tags[num_tag_fields] = inpos;
